@@ -4,7 +4,8 @@ A *case* is a script of harness actions executed one by one on an `async_solipsi
 `MicrogridApiSource` (mode "direct": `add_metric` is awaited) or the REAL `DataSourcingActor` (mode "actor":
 requests travel through its request channel):
 
-    {"a":"req","ns":str,"cid":int,"metric":NAME,"start":int|null}   create the registry receiver, then request
+    {"a":"req","ns":str,"cid":int,"metric":NAME,"start":null|µs|[µs,offset min]|[µs,"Zone"]}   create the registry
+                                                                      receiver (by channel name), then request
     {"a":"msg","cid":int,"ts":µs,"fields":[[attr,[rat|null,…]],…]}     the fake API streams one data message
     {"a":"yield","n":k}                                               k × `await asyncio.sleep(0)`
 
@@ -89,12 +90,38 @@ def spec_value(metric: str, fields: list) -> str | None:
     raise KeyError(attr)
 
 
+def start_dt(spec: Any) -> datetime | None:
+    """`start_time` of a request from its case form: None | µs (UTC) | [µs, offset minutes] | [µs, "Zone/Name"] —
+    an instant and the zone it is WRITTEN in."""
+    if spec is None:
+        return None
+    if isinstance(spec, int):
+        return EPOCH + timedelta(microseconds=spec)
+    us, zone = spec
+    if isinstance(zone, str):
+        from zoneinfo import ZoneInfo
+        tz: Any = ZoneInfo(zone)
+    else:
+        tz = timezone(timedelta(minutes=zone))
+    return (EPOCH + timedelta(microseconds=us)).astimezone(tz)
+
+
+def start_str(spec: Any) -> str | None:
+    """How the start time appears in the channel name (`str(datetime)`); already-rendered strings pass through."""
+    if spec is None or isinstance(spec, str):
+        return spec
+    return str(start_dt(spec))
+
+
 def chan_key(r: dict) -> tuple:
-    return (r["ns"], r["cid"], r["metric"], r["start"])
+    """Identity of a request = the registry channel a subscriber of it listens on (`get_channel_name()`:
+    namespace, component id, metric name, rendered start time).  Equal instants written in different UTC offsets are
+    DIFFERENT channels; equal renderings (also from different tzinfo objects) are the same channel."""
+    return (r["ns"], r["cid"], r["metric"], start_str(r["start"]))
 
 
 def chan_json(r: dict) -> dict:
-    return {"ns": r["ns"], "cid": r["cid"], "metric": r["metric"], "start": r["start"]}
+    return {"ns": r["ns"], "cid": r["cid"], "metric": r["metric"], "start": start_str(r["start"])}
 
 
 def category_of(case: dict, cid: int) -> str | None:
@@ -126,6 +153,12 @@ def regime_of(case: dict, cid: int | None = None) -> str | None:
 
 
 # ---- generator ---------------------------------------------------------------------------------------------------
+# start times of requests (case form, see `start_dt`): two instants; T0 written in UTC, +01:00 (fixed offset and a
+# zone with that offset in November 2023: SAME rendering), -05:00, +05:30; T0 + 1 h written in +01:00 (other instant
+# whose wall-clock digits equal those of T0 in +02:00)
+START_POOL: list = [None, T0_US, T0_US + 1_000_000, [T0_US, 0], [T0_US, 60], [T0_US, "Europe/Berlin"], [T0_US, -300],
+                    [T0_US, 330], [T0_US, "Asia/Kolkata"], [T0_US + 3_600_000_000, 60], [T0_US, 120]]
+
 TS_MODES = ["increasing", "repeat", "backwards", "far", "shared", "constant", "mixed"]
 TS_WEIGHTS = [30, 18, 12, 8, 10, 6, 16]
 DAY_US = 86_400_000_000
@@ -181,6 +214,25 @@ def message_tags(case: dict) -> set[str]:
                     tags.add("identical-consecutive-messages")
         if any(m["ts"] <= 0 for m in ms):
             tags.add("ts-at-or-before-epoch")
+    reqs = [a for a in case["actions"] if a["a"] == "req" and a["start"] is not None]
+    by_list: dict[tuple, list] = {}
+    for a in reqs:
+        by_list.setdefault((a["ns"], a["cid"], a["metric"]), []).append(a)
+    if reqs:
+        tags.add("start-time-set")
+    for rs in by_list.values():
+        for i, x in enumerate(rs):
+            for y in rs[i + 1:]:
+                same_instant = start_dt(x["start"]) == start_dt(y["start"])
+                same_name = start_str(x["start"]) == start_str(y["start"])
+                if same_instant and not same_name:
+                    tags.add("start-same-instant-other-offset")     # equal datetimes, different channels
+                if same_name and x["start"] != y["start"]:
+                    tags.add("start-same-rendering-other-tzinfo")   # one channel
+                if same_name and x["start"] == y["start"]:
+                    tags.add("start-repeated")
+                if not same_instant:
+                    tags.add("start-distinct-instants")
     seen: dict[int, int] = {}
     for cid, ms in per.items():
         for m in ms:
@@ -227,6 +279,7 @@ def gen_case(rng: random.Random, size: int, allow_unsupported: bool = True) -> d
     clone_p = ts_rng.choice([0.0, 0.0, 0.15, 0.4])   # P(values of a message = values of its predecessor)
     last_ts: dict[int, int] = {}
     last_fields: dict[int, list] = {}
+    start_w = ts_rng.choice([6, 6, 30, 60])          # some cases are mostly about start times
 
     def msg(cid: int) -> None:
         seq[cid] += 1
@@ -244,7 +297,7 @@ def gen_case(rng: random.Random, size: int, allow_unsupported: bool = True) -> d
 
     def req(kind: str | None = None) -> None:
         kind = kind or rng.choices(["new", "dup", "unknown", "unsupported", "nodata", "start"],
-                                   weights=[60, 15, 6, 5 if allow_unsupported else 0, 3, 6])[0]
+                                   weights=[60, 15, 6, 5 if allow_unsupported else 0, 3, start_w])[0]
         cid = focus if rng.random() < 0.75 else rng.choice(data_cids)
         cat = category_of(case, cid)
         if kind == "dup" and requested:
@@ -257,12 +310,18 @@ def gen_case(rng: random.Random, size: int, allow_unsupported: bool = True) -> d
             r = {"ns": rng.choice(namespaces), "cid": cid, "metric": rng.choice(bad), "start": None}
         elif kind == "nodata" and any(c == 1 for c, _ in comps):
             r = {"ns": rng.choice(namespaces), "cid": 1, "metric": "ACTIVE_POWER", "start": None}
+        elif kind == "start":
+            # start times: None vs set, distinct instants, ONE instant written in several UTC offsets / zones (different
+            # channel names although the datetimes compare equal), equal renderings from different tzinfo objects and
+            # plain repeats (the same channel: duplicates).  One namespace / metric so that they meet in one list.
+            ms = SPEC_METRICS[cat]
+            r = {"ns": namespaces[0] if ts_rng.random() < 0.8 else ts_rng.choice(namespaces), "cid": cid,
+                 "metric": ms[0] if ts_rng.random() < 0.8 else ts_rng.choice(ms[:3]), "start": ts_rng.choice(START_POOL)}
         else:
             ms = SPEC_METRICS[cat]
             # few metrics and namespaces so that same-metric lists, new dict keys and duplicates all occur
             metric = rng.choice(ms[:3] + [rng.choice(ms)])
-            r = {"ns": rng.choice(namespaces), "cid": cid, "metric": metric,
-                 "start": (T0_US if kind == "start" else None)}
+            r = {"ns": rng.choice(namespaces), "cid": cid, "metric": metric, "start": None}
         acts.append({"a": "req", **r})
         requested.append(r)
 
@@ -471,8 +530,7 @@ async def _run_async(case: dict) -> dict:
 
         async def add_metric(request: Any) -> None:
             r = {"ns": request.namespace, "cid": request.component_id, "metric": request.metric_id.name,
-                 "start": None if request.start_time is None else
-                 int((request.start_time - EPOCH) / timedelta(microseconds=1))}
+                 "start": None if request.start_time is None else str(request.start_time)}
             log.append({"e": "request", **r})
             key = chan_key(r)
             before = src.comp_data_tasks.get(request.component_id)
@@ -488,8 +546,8 @@ async def _run_async(case: dict) -> dict:
 
         for act in case["actions"]:
             if act["a"] == "req":
-                start = None if act["start"] is None else EPOCH + timedelta(microseconds=act["start"])
-                request = ComponentMetricRequest(act["ns"], act["cid"], ComponentMetricId[act["metric"]], start)
+                request = ComponentMetricRequest(act["ns"], act["cid"], ComponentMetricId[act["metric"]],
+                                                 start_dt(act["start"]))
                 key = chan_key(act)
                 if key not in out_recvs:
                     out_recvs[key] = registry.get_or_create(
@@ -522,8 +580,7 @@ async def _run_async(case: dict) -> dict:
         subs = []
         for c in comps:
             d = src._req_streaming_metrics.get(c, {})  # pylint: disable=protected-access
-            subs.append([c, [[m.name, [[r.namespace, None if r.start_time is None else
-                                        int((r.start_time - EPOCH) / timedelta(microseconds=1))] for r in rs]]
+            subs.append([c, [[m.name, [[r.namespace, None if r.start_time is None else str(r.start_time)] for r in rs]]
                              for m, rs in d.items()]])
         queued = [[c, len(api_recvs[c][0].inner) if api_recvs[c] else 0] for c in comps]
         return {
